@@ -87,6 +87,43 @@ def theorems_of(path):
     return res
 
 
+class Probe:
+    """throw-away stand-in for a Check: collects oracle failures without recording them (used by shrinkers)"""
+
+    def __init__(self):
+        self.keys = []
+        self.hist = collections.Counter()
+
+    def oracle_fail(self, key, what, case):
+        self.keys.append(key)
+
+    def disagree(self, *a, **k):
+        pass
+
+    def case(self, *a, **k):
+        pass
+
+
+def shrink_list(items, still_fails, max_steps=400):
+    """greedy delta debugging: drop chunks, then single items, while `still_fails(items)`"""
+    items = list(items)
+    steps = 0
+    chunk = max(1, len(items) // 2)
+    while chunk >= 1 and steps < max_steps:
+        i, changed = 0, False
+        while i < len(items) and steps < max_steps:
+            cand = items[:i] + items[i + chunk:]
+            steps += 1
+            if cand != items and still_fails(cand):
+                items, changed = cand, True
+            else:
+                i += chunk
+        if chunk == 1 and not changed:
+            break
+        chunk = max(1, chunk // 2) if chunk > 1 else (1 if changed else 0)
+    return items
+
+
 class Check:
     def __init__(self, prop, tier, seed):
         self.prop, self.tier, self.seed = prop, tier, seed
